@@ -84,6 +84,7 @@ func runC17(c *Ctx) {
 	c.rule("S1", "heartbeat lifecycle: started on every successful acquire with a cancellable child context registered in the lock's store, the lock's period and a file inside the lock directory; the loop writes every iteration and ends only on context error; Unlock cancels the store first", 6)
 	c.rule("S2", "writer interval I(p) and reader threshold T(p) are linear in the same period field: I ≤ p, T − I ≥ p, comparison is age > T, both sides in the same unit", 3)
 	c.rule("S3", "IsStale: constant false only on a failed filesystem call; the empty directory is judged by its own age; all heartbeat files must be stale; nil time info is not stale", 4)
+	c.rule("S5", "every removal of the lock made on the strength of IsStale() claims the judged directory atomically first (rename to a private name), so that a lock taken over meanwhile by a live holder is not removed", 1)
 	c.rule("S4", "ReleaseIfStale calls Unlock only on the true side of IsStale()", 1)
 
 	try := c.fn(fsPkgRel, "(*RemoteLockFile).TryLock")
@@ -437,6 +438,59 @@ func runC17(c *Ctx) {
 		})
 		c.check(good, "S4", fname(rel), c.pos(rel.Pos()), "Unlock only on the true side of IsStale()", "ReleaseIfStale can release a lock that IsStale() did not declare stale: a live lock is taken away from its holder")
 	}
+
+	// ---- S5 ----------------------------------------------------------------
+	// "while the holder is alive the lock is never released by ReleaseIfStale and never taken over": the verdict
+	// 'stale' is about the directory that was there when it was read; the removal that follows acts on whatever is
+	// there when it runs. Unless the judged directory is first claimed atomically (renamed to a private name), an
+	// observer that read 'stale' before another observer took the dead lock over removes that observer's live lock.
+	// One obligation per function that removes the lock on the true side of IsStale().
+	sites := 0
+	for _, f := range c.srcFuncs(fsPkgRel) {
+		if !isRemoteLockMethod(f) {
+			continue
+		}
+		var removal *ssa.Call
+		allInstrs(f, func(in ssa.Instruction) {
+			cl, ok := in.(*ssa.Call)
+			if !ok {
+				return
+			}
+			isRemoval := staticCallee(&cl.Call) == unlock
+			if n := calleeFull(&cl.Call); hasSuffixAny(n, "VFS).Rm", "VFS).RemoveWithContext", ".Remove", ".RemoveAll") {
+				for _, a := range cl.Call.Args {
+					if isLockPathValue(a) {
+						isRemoval = true
+					}
+				}
+			}
+			if isRemoval && onBoolSide(cl, true, func(v ssa.Value) bool {
+				sc, ok := v.(*ssa.Call)
+				return ok && staticCallee(&sc.Call) == isStaleM
+			}) {
+				removal = cl
+			}
+		})
+		if removal == nil {
+			continue
+		}
+		sites++
+		claimed := false
+		for g := range c.reachable([]*ssa.Function{outermost(f)}, false, inPkg(fsPkgRel)) {
+			allInstrs(g, func(in ssa.Instruction) {
+				if cl, ok := in.(*ssa.Call); ok && hasSuffixAny(calleeFull(&cl.Call), ".Rename", "VFS).Move", "VFS).MoveWithContext") {
+					for _, a := range cl.Call.Args {
+						if isLockPathValue(a) {
+							claimed = true
+						}
+					}
+				}
+			})
+		}
+		c.check(claimed, "S5", fname(outermost(f))+"/stale-removal", c.ipos(removal), "the judged directory is claimed by rename before it is removed",
+			outermost(f).Name()+" removes the lock path because IsStale() answered true a moment earlier, with no atomic claim of the directory that was judged: if another observer took the dead lock over in between (it is alive and heartbeating), its live lock is removed and taken over")
+	}
+	c.Extra["stale_removal_sites"] = sites
 }
 
 func nz(f float64) float64 {
